@@ -120,6 +120,7 @@ type frame struct {
 	panic            interface{}
 	phitemps         []value // temporaries for parallel phi assignment
 	mkdb             bool    // fn belongs to the module under test
+	depth            int
 }
 
 func (fr *frame) get(key ssa.Value) value {
@@ -346,7 +347,8 @@ func visitInstr(fr *frame, instr ssa.Instruction) continuation {
 		if !fitsInt(reserve, fr.i.sizes) {
 			panic(fmt.Sprintf("ssa.MakeMap.Reserve value %d does not fit in int", reserve))
 		}
-		fr.env[instr] = makeMap(instr.Type().Underlying().(*types.Map).Key(), reserve)
+		mt := instr.Type().Underlying().(*types.Map)
+		fr.env[instr] = makeMap(mt.Key(), mt.Elem(), reserve)
 
 	case *ssa.Range:
 		fr.env[instr] = rangeIter(fr.get(instr.X), instr.X.Type())
@@ -516,6 +518,12 @@ func callSSA(i *interpreter, caller *frame, callpos token.Pos, fn *ssa.Function,
 		}
 		if fn.Blocks == nil {
 			panic(pathEnd{"unsupported", "no code for function: " + fn.String() + " called at " + P.site()})
+		}
+	}
+	if caller != nil {
+		fr.depth = caller.depth + 1
+		if fr.depth > 3000 {
+			panic(pathEnd{"budget", "call depth 3000 exceeded (unbounded recursion) in " + fn.String()})
 		}
 	}
 	fr.mkdb = isMkdbFn(fn)
